@@ -16,9 +16,20 @@ CORE_RULE = ("validator trees generated kind-directed (every constructor, both c
 PROPS: Dict[str, Dict[str, Any]] = {
     "C01": {"theorems": [], "stream": "core", "opts": {"salt": "c01", "special_rate": 0.05},
             "quick_n": 8000, "thorough_n": 200000, "fields": ["out"]},
-    "C03": {"theorems": [], "stream": "core", "opts": {"salt": "c03", "gen": ["streams", "gen_collection_case"]},
+    "C03": {"theorems": ["loopItems_iff", "ItemsRun.sound", "ItemsRun.complete", "ItemsRun.sorted", "ItemsRun.length",
+                         "ItemsRun.all_valid", "loopItems_hash", "C03_seq_container_first", "C03_pre_iff",
+                         "C03_seq_accept_iff", "C03_seq_reject_iff", "C03_list_run", "C03_set_run", "C03_utuple_run",
+                         "loopFields_iff", "C03_ntuple_container_first", "C03_ntuple_pre_iff", "C03_ntuple_arity",
+                         "C03_ntuple_accept_iff", "C03_ntuple_reject_slots", "mapLoop_of_run",
+                         "C03_map_container_first", "C03_map_accept", "C03_map_reject", "MapRun.keys_exact",
+                         "run_mono"], "stream": "core", "opts": {"salt": "c03", "gen": ["streams", "gen_collection_case"]},
             "quick_n": 6000, "thorough_n": 100000, "fields": ["out", "trace"]},
-    "C05": {"theorems": [], "stream": "core", "opts": {"salt": "c05", "gen": ["streams", "gen_wrapper_case"]},
+    "C05": {"theorems": ["C05_union_first", "C05_union_all_errs", "C05_union_valid_inv", "C05_union_invalid_inv",
+                         "C05_union_run", "C05_optional_run", "C05_optional_none", "C05_optional_inner_valid",
+                         "C05_optional_both_errs", "C05_maybe_nothing", "C05_maybe_just_valid",
+                         "C05_maybe_just_invalid", "C05_maybe_other", "C05_lazy_run", "C05_lazy", "C05_knr_valid",
+                         "C05_knr_invalid", "C05_user", "C05_always", "C05_map_valid", "C05_map_invalid",
+                         "C05_recursive_terminates", "run_mono", "Run.unique"], "stream": "core", "opts": {"salt": "c05", "gen": ["streams", "gen_wrapper_case"]},
             "quick_n": 6000, "thorough_n": 100000, "fields": ["out", "trace"]},
     "C06": {"theorems": [], "stream": "core", "opts": {"salt": "c06", "async_rate": 0.12},
             "quick_n": 10000, "thorough_n": 300000, "fields": ["out", "trace"]},
